@@ -15,7 +15,7 @@ DATA = {"A": [1, 2], "B": [3, 4]}
 LABELS = ("T1", "T2")
 # directory (relative to OUT) of plot i; None = no output.dirname at all
 DIRS = ["d0", None, "d0/deep"]
-KIND_ORDER = {".csv": 0, ".tex": 1, ".pdf": 2, ".png": 3}
+KIND_ORDER = {".csv": 0, ".tex": 1, ".pdf": 2, ".png": 3, ".jpeg": 3}
 
 
 # ------------------------------------------------------------------------------------------------
@@ -61,12 +61,12 @@ _INPUT_RE = re.compile(r"\\input\{([^}]*)\}")
 class Doc(object):
     """One rendered document: its csv members, and the tex / pdf / png derived from them."""
 
-    def __init__(self, ident, members, stem):
+    def __init__(self, ident, members, stem, img="png"):
         self.id = ident
         self.members = members          # list of (member index, csv path)
         self.tex = stem + ".tex"
         self.pdf = stem + ".pdf"
-        self.png = stem + ".png"
+        self.png = stem + "." + img     # the image (PDFToPNG's documented format option names it)
 
     def files(self):
         return [p for _, p in self.members] + [self.tex, self.pdf, self.png]
@@ -77,11 +77,11 @@ def plot_stem(i):
     return os.path.join(OUT, d, "p%d" % i) if d else os.path.join(OUT, "p%d" % i)
 
 
-def layout(kind, p):
+def layout(kind, p, img="png"):
     if kind == "plain":
-        return [Doc("p%d" % i, [(i, plot_stem(i) + ".csv")], plot_stem(i)) for i in range(p)]
+        return [Doc("p%d" % i, [(i, plot_stem(i) + ".csv")], plot_stem(i), img) for i in range(p)]
     if kind == "grouped":
-        return [Doc("g", [(i, plot_stem(i) + ".csv") for i in range(p)], os.path.join(OUT, "combined"))]
+        return [Doc("g", [(i, plot_stem(i) + ".csv") for i in range(p)], os.path.join(OUT, "combined"), img)]
     raise ValueError(kind)
 
 
